@@ -862,3 +862,29 @@ func constStringVal(k *types.Const) string {
 	}
 	return constant.StringVal(k.Val())
 }
+
+// finalUses lists the instructions that use v, looking through pure
+// conversions (ChangeType, MakeInterface, ChangeInterface, Convert).
+func finalUses(v ssa.Value) []ssa.Instruction {
+	var out []ssa.Instruction
+	refs := v.Referrers()
+	if refs == nil {
+		return nil
+	}
+	for _, r := range *refs {
+		switch x := r.(type) {
+		case *ssa.ChangeType:
+			out = append(out, finalUses(x)...)
+		case *ssa.MakeInterface:
+			out = append(out, finalUses(x)...)
+		case *ssa.ChangeInterface:
+			out = append(out, finalUses(x)...)
+		case *ssa.Convert:
+			out = append(out, finalUses(x)...)
+		case *ssa.DebugRef:
+		default:
+			out = append(out, r)
+		}
+	}
+	return out
+}
